@@ -29,6 +29,7 @@ def _ring_bonds_to_selfies(lbond: 'DirectedBond', rbond: 'DirectedBond'):
 
 @contract("selfies/encoder.py::_check_bond_constraints", props=["C06", "C09"])
 def _check_bond_constraints(mol: 'MolecularGraph', smiles: str):
+    opaque("cap_key")
     requires(table_ok(_current_constraints))
     requires(wf(mol))
     requires(all(atom_fields_ok(mol._atoms[i]) and not mol._atoms[i].is_aromatic and typed(mol._bond_counts[i], 'int')
